@@ -7,6 +7,7 @@ from typing import Dict, List, Optional, Set, Tuple
 
 from ..cfg import CFG, Node
 from ..core import AnalysisError, Cls, Fn, Repo, call_name, calls_in, const_value, dotted, get_kw, last_attr, short, walk_no_nested
+from ..pat import has
 from ..report import Check
 from ..util import self_attr_stores
 
@@ -76,7 +77,7 @@ def _consumers(ck: Check, repo: Repo) -> None:
     ck.floor("C20.1", n, 7, "single-agent learners fed from ReplayBuffer")
     # multi-agent: 5-tuple producer and consumer
     ms = repo.fn("agilerl.components.multi_agent_replay_buffer", "MultiAgentReplayBuffer.sample")
-    ck.ob("C20.1", ms, ms.node, "return tuple(transition.values())" in ast.unparse(ms.node), "the multi-agent buffer hands out a tuple with one entry per field, in field order", construct="MA sample return")
+    ck.ob("C20.1", ms, ms.node, has(ms.node, 'return tuple($transition.values())'), "the multi-agent buffer hands out a tuple with one entry per field, in field order", construct="MA sample return")
     for modname, cname in (("agilerl.algorithms.maddpg", "MADDPG"), ("agilerl.algorithms.matd3", "MATD3")):
         fn = repo.fn(modname, f"{cname}.learn")
         p = fn.named_params[1]
@@ -100,8 +101,8 @@ def _consumers(ck: Check, repo: Repo) -> None:
         ck.ob("C20.1", f or sm.methods["__init__"], (f or sm.methods["__init__"]).node, ok, f"Sampler.{m} forwards its arguments to {callee}", construct=f"Sampler.{m}")
     init = sm.methods["__init__"]
     src = ast.unparse(init.node)
-    ck.ob("C20.1", init, init.node, "self.per = isinstance(memory, PrioritizedReplayBuffer)" in src and "self.n_step = isinstance(memory, MultiStepReplayBuffer)" in src
-          and "self.sample = self.sample_per" in src and "self.sample = self.sample_n_step" in src and "self.sample = self.sample_standard" in src,
+    ck.ob("C20.1", init, init.node, has(src, 'self.per = isinstance($memory, PrioritizedReplayBuffer)') and has(src, 'self.n_step = isinstance($memory, MultiStepReplayBuffer)')
+          and has(src, 'self.sample = self.sample_per') and has(src, 'self.sample = self.sample_n_step') and has(src, 'self.sample = self.sample_standard'),
           "the sampler picks the sampling function from the kind of buffer it was given", construct="Sampler dispatch")
 
 
@@ -286,11 +287,11 @@ def _eval_vs_rollout(ck: Check, repo: Repo) -> None:
             continue
         fn = repo.fn(modname, f"{cname}.test")
         src = ast.unparse(fn.node)
-        computes_vect = "hasattr(env, 'num_envs')" in src
+        computes_vect = has(src, "hasattr($env, 'num_envs')")
         if not computes_vect:
             continue
         steps = [c for c in calls_in(fn.node) if call_name(c) == "env.step"]
-        handles = ("is_vectorised" in src or "not vectorised" in src or "if not is_vectorised" in src) or ("action[0]" in src) or ("np.array([" in src and "done" in src)
+        handles = ("is_vectorised" in src or has(src, 'not $vectorised') or has(src, 'if not $is_vectorised:\n    ...')) or ("action[0]" in src) or ("np.array([" in src and "done" in src)
         multi = cname in ("IPPO", "MADDPG", "MATD3")
         ck.ob("C20.7", fn, steps[0] if steps else fn.node, handles,
               f"{cname}.test un-batches the action and wraps scalar done flags when the environment is not vectorised, as its training loop does",
